@@ -13,6 +13,17 @@ Fixpoint before_bar (l : list string) : list string :=
 Fixpoint after_bar (l : list string) : list string :=
   match l with [] => [] | x :: r => if String.eqb x "|" then r else after_bar r end.
 
+(* leading "P,mac" tokens of run 2: MACs captured in the session before the handler is constructed *)
+Definition pre_mac (x : string) : option mac :=
+  match split ","%char x with
+  | [k; m] => if String.eqb k "P" then N_of_hex m else None
+  | _ => None
+  end.
+Fixpoint take_pre (l : list string) : list mac :=
+  match l with x :: r => match pre_mac x with Some m => m :: take_pre r | None => [] end | [] => [] end.
+Fixpoint drop_pre (l : list string) : list string :=
+  match l with x :: r => match pre_mac x with Some _ => drop_pre r | None => l end | [] => [] end.
+
 Definition dispatch (kind : string) (args : list string) : string :=
   (* hist: all frames through one receive buffer; histf: a fresh buffer per frame.  The model does not
      distinguish them (retained fields are values): any difference is a correspondence failure. *)
@@ -40,11 +51,12 @@ Definition dispatch (kind : string) (args : list string) : string :=
     | Some (cA, rest) =>
         match parse_cfg rest with
         | Some (cB, rest2) =>
-            match parse_ops (before_bar rest2), parse_ops (after_bar rest2) with
+            match parse_ops (before_bar rest2), parse_ops (drop_pre (after_bar rest2)) with
             | Some opsA, Some opsB =>
+                let pre := take_pre (after_bar rest2) in
                 let '(sA, saved) := run_saving cA (init cA) [] (with_ch0 opsA) in
                 let cL := loaded_cfg (c_sub cA) cB in
-                let s0 := restart_state (c_sub cA) cB saved in
+                let s0 := restart_state (c_sub cA) cB pre saved in
                 let h := with_ch0 opsB in
                 let '(s, rs) := run cL s0 h in
                 let tr := trace cL s0 h in
